@@ -14,8 +14,11 @@ KNOWN FINDING C05-dna-u-strand.  The full-strength separation clause is FALSE of
 accepts `U` under type DNA (only RNA rewrites it to `T`), and `U` and `T` have the same complement
 `A`, so for double-stranded DNA two inputs that differ only in `U` vs `T` — not the same molecule —
 receive the same seqhash (`hash_inj_dna_u_witness`, kernel-checked on the model).  The clause is
-therefore proved as `hash_inj_partial` under the hypothesis that excludes exactly that class
-(double-stranded, type DNA, a `U` in the sequence).  `Z` (complemented to the zero rune, under DNA
+therefore proved as `hash_inj_partial` under a SUFFICIENT hypothesis (no `U` in double-stranded DNA
+inputs; it also excludes harmless inputs such as `ACU`), and `hash_collision_class` gives the EXACT
+residue unconditionally: a collision between different molecules happens only between double-stranded
+DNA sequences, one containing `U`, with the same other strand.  The completeness direction fails in
+the same class (`hash_same_molecule_dna_u_witness`; `hash_same_molecule_partial`).  `Z` (complemented to the zero rune, under DNA
 and RNA) is NOT excluded: complementing is injective on the accepted nucleotide letters other than
 `U`, so nothing collides with `Z`.
 
@@ -106,26 +109,54 @@ theorem canon_eq_strands {x y : Str} {circ ds : Bool} (h : canonSpec x circ ds =
     · exact ⟨revComp x, by simp [strands], y, by simp [strands], (canon_ss_eq_iff _ _ _).1 h⟩
     · exact ⟨revComp x, by simp [strands], revComp y, by simp [strands], (canon_ss_eq_iff _ _ _).1 h⟩
 
-/-- without `U` that is `SameMolecule` -/
-theorem sameMolecule_of_canon_eq {x y : Str} {circ ds : Bool}
-    (hx : ds = true → NoU x) (hy : ds = true → NoU y)
-    (h : canonSpec x circ ds = canonSpec y circ ds) : SameMolecule x y circ ds := by
+/-- EXACT residue of the separation clause, unconditionally: equal canonical representatives mean the
+same molecule, or — double-stranded only — the two sequences have the SAME OTHER STRAND (up to rotation) -/
+theorem canon_eq_cases {x y : Str} {circ ds : Bool} (h : canonSpec x circ ds = canonSpec y circ ds) :
+    SameMolecule x y circ ds ∨ (ds = true ∧ SameUpToRotation circ (revComp x) (revComp y)) := by
   obtain ⟨x', hx', y', hy', hs⟩ := canon_eq_strands h
   cases ds
   · simp only [strands, Bool.false_eq_true, ↓reduceIte, List.mem_singleton] at hx' hy'
     subst hx'; subst hy'
-    exact Or.inl hs
+    exact Or.inl (Or.inl hs)
   · simp only [strands, ↓reduceIte, List.mem_cons, List.not_mem_nil, or_false] at hx' hy'
     rcases hx' with rfl | rfl <;> rcases hy' with rfl | rfl
-    · exact Or.inl hs
-    · exact Or.inr ⟨rfl, Or.inl hs⟩
-    · exact Or.inr ⟨rfl, Or.inr hs⟩
-    · exact Or.inl (hs.of_revComp (hx rfl) (hy rfl))
+    · exact Or.inl (Or.inl hs)
+    · exact Or.inl (Or.inr ⟨rfl, Or.inl hs⟩)
+    · exact Or.inl (Or.inr ⟨rfl, Or.inr hs⟩)
+    · exact Or.inr ⟨rfl, hs⟩
+
+/-- without `U` the same other strand means the same sequence, so that is `SameMolecule` -/
+theorem sameMolecule_of_canon_eq {x y : Str} {circ ds : Bool}
+    (hx : ds = true → NoU x) (hy : ds = true → NoU y)
+    (h : canonSpec x circ ds = canonSpec y circ ds) : SameMolecule x y circ ds := by
+  rcases canon_eq_cases h with hs | ⟨hd, hs⟩
+  · exact hs
+  · exact Or.inl (hs.of_revComp (hx hd) (hy hd))
+
+theorem SameUpToRotation.mem_iff {circ : Bool} {x y : Str} (h : SameUpToRotation circ x y) {c : Char} :
+    c ∈ x ↔ c ∈ y := by
+  cases circ
+  · have : x = y := h
+    rw [this]
+  · exact IsRotation.mem_iff h
+
+theorem table_strand_closed : ∀ c ∈ nucleotideLetters, c ≠ 'U' → complementBase c ∈ nucleotideLetters → c ∈ upperCodes := by
+  decide
+
+/-- if a `U`-free accepted nucleotide sequence has an other strand that is itself accepted, it is over
+the 15 IUPAC codes (this is where `Z`, whose complement is the zero rune, drops out) -/
+theorem iupac15_of_strand_accepted {x y : Str} {circ : Bool} (hx : NoU x) (hy : NoU y)
+    (h : SameUpToRotation circ x (Transform.revComp y)) : Iupac15 y := by
+  intro c hc
+  have hm : complementBase c ∈ Transform.revComp y := by
+    simp only [Transform.revComp, complement, List.mem_reverse, List.mem_map]
+    exact ⟨c, hc, rfl⟩
+  exact table_strand_closed c (hy.1 c hc) (fun e => hy.2 (e ▸ hc)) (hx.1 _ (h.mem_iff.2 hm))
 
 /-- conversely the same molecule has the same canonical representative (C04 at the level of
-`canonSpec`; on C04's strand domain, the 15 IUPAC codes) -/
+`canonSpec`), for `U`-free accepted nucleotide sequences when double-stranded -/
 theorem canon_eq_of_sameMolecule {x y : Str} {circ ds : Bool}
-    (hx : ds = true → Iupac15 x) (hy : ds = true → Iupac15 y)
+    (hx : ds = true → NoU x) (hy : ds = true → NoU y)
     (h : SameMolecule x y circ ds) : canonSpec x circ ds = canonSpec y circ ds := by
   have rot : ∀ {u v : Str} (d : Bool), SameUpToRotation circ u v → canonSpec u circ d = canonSpec v circ d := by
     intro u v d huv
@@ -134,8 +165,8 @@ theorem canon_eq_of_sameMolecule {x y : Str} {circ ds : Bool}
     · exact canonSpec_of_isRotation huv d
   rcases h with h | ⟨rfl, h | h⟩
   · exact rot ds h
-  · rw [rot true h, canonSpec_revComp (hy rfl).rc_rc]
-  · rw [← rot true h, canonSpec_revComp (hx rfl).rc_rc]
+  · rw [rot true h, canonSpec_revComp (iupac15_of_strand_accepted (hx rfl) (hy rfl) h).rc_rc]
+  · rw [← rot true h, canonSpec_revComp (iupac15_of_strand_accepted (hy rfl) (hx rfl) h.symm).rc_rc]
 
 /-! ### separation -/
 
@@ -170,8 +201,9 @@ theorem Accepted.noU {ty : String} {t : Str} (h : Accepted ty true t) (hu : 'U' 
          ta = tb ∧ ca = cb ∧ da = db ∧ SameMolecule (norm ta a) (norm tb b) ca da
 
    is REFUTED by `hash_inj_dna_u_witness` below (known finding C05-dna-u-strand).  What is proved is
-   the same statement under the hypothesis `hcl`, which excludes exactly the finding's class:
-   double-stranded, type DNA, a `U` (or `u`) in the sequence. -/
+   the same statement under the hypothesis `hcl` (double-stranded DNA inputs contain no `U`/`u`), which is
+   SUFFICIENT, not exact (it also excludes `ACU`/`ACT`, which do not collide); the exact residue is
+   `hash_collision_class`. -/
 
 /-- Two accepted inputs receive the same seqhash only if they denote the same molecule: same type,
 topology and strandedness, and normalised sequences equal up to rotation when circular and up to
@@ -207,6 +239,40 @@ theorem hash_inj_partial {blake : List UInt8 → List UInt8} (hb : Function.Inje
       · exact (hcl rfl).2 hty
       · exact absurd hty hr
       · exact absurd hd (by simp)
+
+/-- THE EXACT CLASS of the finding, unconditionally (no hypothesis on the letters): two accepted inputs
+with the same seqhash (injective digest) have the same tags and are the same molecule, OR they are
+double-stranded DNA, one of them contains `U`, and they have the same other strand up to rotation
+(they differ only in the `U`/`T` spelling of letters, both complemented to `A`).  This residue is the
+class predicate `knownSep` of the check's driver; `hash_inj_partial` is the special case where the
+residue is empty. -/
+theorem hash_collision_class {blake : List UInt8 → List UInt8} (hb : Function.Injective blake)
+    {a b : Str} {ta tb : String} {ca da cb db : Bool} {h : Str}
+    (h₁ : hashSpec blake a ta ca da = .ok h) (h₂ : hashSpec blake b tb cb db = .ok h) :
+    ta = tb ∧ ca = cb ∧ da = db ∧
+      (SameMolecule (norm ta a) (norm tb b) ca da ∨
+        (da = true ∧ ta = "DNA" ∧ ('U' ∈ norm ta a ∨ 'U' ∈ norm tb b) ∧
+          SameUpToRotation ca (revComp (norm ta a)) (revComp (norm tb b)))) := by
+  have acc₁ := (hashSpec_ok_iff.1 h₁).1
+  have acc₂ := (hashSpec_ok_iff.1 h₂).1
+  obtain ⟨rfl, rfl, rfl, hc⟩ := hash_inj_canon hb h₁ h₂
+  refine ⟨rfl, rfl, rfl, ?_⟩
+  rcases canon_eq_cases hc with hs | ⟨hd, hs⟩
+  · exact Or.inl hs
+  · subst hd
+    by_cases hu : 'U' ∈ norm ta a ∨ 'U' ∈ norm ta b
+    · right
+      refine ⟨rfl, ?_, hu, hs⟩
+      rcases acc₁ with ⟨hty | hty, _⟩ | ⟨_, _, hd⟩
+      · exact hty
+      · subst hty
+        rcases hu with hu | hu
+        · exact absurd hu (noU_norm_rna a)
+        · exact absurd hu (noU_norm_rna b)
+      · exact absurd hd (by simp)
+    · left
+      simp only [not_or] at hu
+      exact Or.inl (hs.of_revComp (Accepted.noU acc₁ hu.1) (Accepted.noU acc₂ hu.2))
 
 /-- the finding, for EVERY digest: under double-stranded DNA the one-letter sequences `U` and `T`
 (and the circular `UC` and `TC`) are both accepted and receive the same seqhash … -/
@@ -259,15 +325,53 @@ theorem hash_inj_general {blake : List UInt8 → List UInt8} (hb : Function.Inje
   obtain ⟨rfl, rfl, rfl, hc⟩ := hash_inj_canon hb h₁ h₂
   exact ⟨rfl, rfl, rfl, canon_eq_strands hc⟩
 
-/-- completeness (with C04: hash partition = orbit partition): accepted inputs of the same declared
-kind that denote the same molecule receive the same seqhash — for every digest -/
-theorem hash_same_molecule (blake : List UInt8 → List UInt8) {a b : Str} {ty : String} {c d : Bool}
+/- Completeness at full strength (with C04: hash partition = orbit partition),
+
+     hash_same_molecule : Accepted ty d (norm ty a) → Accepted ty d (norm ty b) →
+         SameMolecule (norm ty a) (norm ty b) c d → hash blake a ty c d = hash blake b ty c d
+
+   is REFUTED by `hash_same_molecule_dna_u_witness` below (second half of known finding
+   C05-dna-u-strand: strand invariance fails for double-stranded DNA containing `U`).  Proved: the same
+   statement under the hypothesis excluding double-stranded DNA inputs that contain `U` (`Z` is covered). -/
+
+/-- completeness — PARTIAL: accepted inputs of the same declared kind that denote the same molecule
+receive the same seqhash, for every digest; for double-stranded DNA the sequences must not contain `U` -/
+theorem hash_same_molecule_partial (blake : List UInt8 → List UInt8) {a b : Str} {ty : String} {c d : Bool}
     (ha : Accepted ty d (norm ty a)) (hb : Accepted ty d (norm ty b))
-    (hcl : d = true → Iupac15 (norm ty a) ∧ Iupac15 (norm ty b))
+    (hcl : d = true → ty = "DNA" → 'U' ∉ upper a ∧ 'U' ∉ upper b)
     (h : SameMolecule (norm ty a) (norm ty b) c d) :
     hashSpec blake a ty c d = hashSpec blake b ty c d := by
+  have nou : ∀ s, Accepted ty d (norm ty s) → (d = true → ty = "DNA" → 'U' ∉ upper s) → d = true → NoU (norm ty s) := by
+    intro s hs hu hd
+    subst hd
+    refine Accepted.noU hs ?_
+    by_cases hr : ty = "RNA"
+    · subst hr; exact noU_norm_rna s
+    · have : norm ty s = upper s := by simp [norm, hr]
+      rw [this]
+      rcases hs with ⟨hty | hty, _⟩ | ⟨_, _, hd⟩
+      · exact hu rfl hty
+      · exact absurd hty hr
+      · exact absurd hd (by simp)
   rw [hashSpec_ok _ _ _ _ _ ha, hashSpec_ok _ _ _ _ _ hb,
-    canon_eq_of_sameMolecule (fun hd => (hcl hd).1) (fun hd => (hcl hd).2) h]
+    canon_eq_of_sameMolecule (nou a ha fun hd ht => (hcl hd ht).1) (nou b hb fun hd ht => (hcl hd ht).2) h]
+
+/-- KNOWN FINDING C05-dna-u-strand, completeness half, kernel-checked on the model of the code: `CUC`
+and `GAG` are both accepted as linear double-stranded DNA and are the same molecule (`GAG` is the
+reverse complement of `CUC`), yet they receive different seqhashes (`rc GAG = CTC < CUC`) — for EVERY
+injective digest -/
+theorem hash_same_molecule_dna_u_witness :
+    Accepted "DNA" true (norm "DNA" "CUC".toList) ∧ Accepted "DNA" true (norm "DNA" "GAG".toList) ∧
+    SameMolecule (norm "DNA" "CUC".toList) (norm "DNA" "GAG".toList) false true ∧
+    ∀ blake : List UInt8 → List UInt8, Function.Injective blake →
+      Seqhash.hash blake "CUC".toList "DNA" false true ≠ Seqhash.hash blake "GAG".toList "DNA" false true := by
+  refine ⟨by decide, by decide, Or.inr ⟨rfl, Or.inr (show revComp (norm "DNA" "CUC".toList) = norm "DNA" "GAG".toList by decide)⟩, ?_⟩
+  intro blake hb he
+  rw [Props.C12Booth.hash_eq_hashSpec, hashSpec_ok blake _ _ _ _ (by decide), hashSpec_ok blake _ _ _ _ (by decide)] at he
+  have hv := (v1_injective (Outcome.ok.inj he)).2
+  have hbytes := hb (hex_injective hv)
+  revert hbytes
+  decide
 
 /-! ### the published v1 form -/
 
@@ -390,12 +494,21 @@ theorem model_hash_inj_general {blake : List UInt8 → List UInt8} (hb : Functio
       ∃ x ∈ strands da (norm ta a), ∃ y ∈ strands da (norm tb b), SameUpToRotation ca x y := by
   rw [hash_model_eq_spec] at h₁ h₂; exact hash_inj_general hb h₁ h₂
 
-theorem model_hash_same_molecule (blake : List UInt8 → List UInt8) {a b : Str} {ty : String} {c d : Bool}
+theorem model_hash_same_molecule_partial (blake : List UInt8 → List UInt8) {a b : Str} {ty : String} {c d : Bool}
     (ha : Accepted ty d (norm ty a)) (hb : Accepted ty d (norm ty b))
-    (hcl : d = true → Iupac15 (norm ty a) ∧ Iupac15 (norm ty b))
+    (hcl : d = true → ty = "DNA" → 'U' ∉ upper a ∧ 'U' ∉ upper b)
     (h : SameMolecule (norm ty a) (norm ty b) c d) :
     Seqhash.hash blake a ty c d = Seqhash.hash blake b ty c d := by
-  rw [hash_model_eq_spec]; exact hash_same_molecule blake ha hb hcl h
+  rw [hash_model_eq_spec]; exact hash_same_molecule_partial blake ha hb hcl h
+
+theorem model_hash_collision_class {blake : List UInt8 → List UInt8} (hb : Function.Injective blake)
+    {a b : Str} {ta tb : String} {ca da cb db : Bool} {h : Str}
+    (h₁ : Seqhash.hash blake a ta ca da = .ok h) (h₂ : Seqhash.hash blake b tb cb db = .ok h) :
+    ta = tb ∧ ca = cb ∧ da = db ∧
+      (SameMolecule (norm ta a) (norm tb b) ca da ∨
+        (da = true ∧ ta = "DNA" ∧ ('U' ∈ norm ta a ∨ 'U' ∈ norm tb b) ∧
+          SameUpToRotation ca (revComp (norm ta a)) (revComp (norm tb b)))) := by
+  rw [hash_model_eq_spec] at h₁ h₂; exact hash_collision_class hb h₁ h₂
 
 theorem model_hash_form (blake : List UInt8 → List UInt8) (s : Str) (ty : String) (c d : Bool)
     (h : Accepted ty d (norm ty s)) :
